@@ -16,8 +16,10 @@ META = {
                   "must have returned, and the only blocked actors are the members of a trailing incomplete group.",
     "level_note": "S4U API only: the model-checker leg of the design is not built. The documented return value (exactly one 'true' per group) and "
                   "the order of the returns inside a group are recorded as counters only, the statement does not cover them. Killing an actor that "
-                  "waits on a barrier is not generated: the statement does not say whether it still counts, and on this tree it crashes the "
-                  "kernel (reported separately).",
+                  "waits on a barrier is not generated: the statement does not say whether it still counts. Scripted actors left in an "
+                  "incomplete trailing group are kept blocked for 64 time units (nobody may return) and then completed by helper actors, because "
+                  "on this tree the kernel crashes when it kills an actor blocked on a barrier (also at the end of a deadlocked run): that "
+                  "crash is a separate known finding, reproduced by two directed programs without helpers.",
     "rule": "case = one scenario (barrier sizes + per-actor scripts); non-trivial = distinct scenarios, fully checked, in which >=1 wait had to block "
             "and >=1 group of size >=2 was released",
     "ready": False,
@@ -29,7 +31,12 @@ DIRECTED = [
     {"mode": "bar", "sizes": [1], "scripts": [["B0", "B0", "B0"], ["B0"]]},
     {"mode": "bar", "sizes": [6], "scripts": [["B0"], ["B0"], ["S1", "B0"], ["S1", "B0"], ["S2", "B0"], ["S2", "B0"]]},
     {"mode": "bar", "sizes": [2, 3], "scripts": [["B0", "B1"], ["B1", "B0"], ["B1", "B0", "B0"], ["S1", "B0"]]},
-    {"mode": "bar", "sizes": [4], "scripts": [["B0"], ["B0"], ["B0"]]},                          # incomplete group: nobody may return
+    {"mode": "bar", "sizes": [4], "scripts": [["B0"], ["B0"], ["B0"]]},                          # incomplete group: nobody may return before the helpers come
+]
+# programs that end with an incomplete group and no helper: the actors stay blocked, the kernel reports the deadlock and kills them
+NOSWEEP = [
+    {"mode": "bar", "sizes": [2], "nosweep": 1, "scripts": [["B0"]]},
+    {"mode": "bar", "sizes": [4], "nosweep": 1, "scripts": [["B0", "B0"], ["B0"], ["B0"], ["B0"], ["S1", "B0"]]},
 ]
 
 
@@ -37,7 +44,11 @@ def judge(ctx, fl, sc, res, out):
     w = {"flavour": fl, "scenario": sc}
     c = G.crashed(res)
     if c:
-        ctx.violation("C07:crash", "barrier harness died: %s; history tail %r" % (c, out.splitlines()[-8:]), w)
+        if sc.get("nosweep") and "Deadlock detected" in res.err and not any(l.startswith("END") for l in out.splitlines()):
+            ctx.violation("C07:crash:deadlock-cleanup-of-barrier-waiter", "the program ends with actors blocked on a barrier (incomplete group); the kernel "
+                          "reported the deadlock and died while killing them: %s; history tail %r" % (c, out.splitlines()[-8:]), w)
+        else:
+            ctx.violation("C07:crash", "barrier harness died: %s; history tail %r" % (c, out.splitlines()[-8:]), w)
         return
     f = O.check_bar(ctx, sc, out, w)
     if not f:
@@ -60,6 +71,7 @@ def run(ctx):
         G.exe(fl)
     j = lambda fl, sc, res, out: judge(ctx, fl, sc, res, out)
     G.run_all(ctx, "hooks", scs, 20, j)
+    G.run_all(ctx, "hooks", NOSWEEP, 1, j)
     G.run_all(ctx, "asan", scs[: len(DIRECTED) + max(24, n // 10)], 40, j)
 
 
